@@ -236,6 +236,54 @@ func (g *c02Gen) clear(p []byte, limit int) {
 	}
 }
 
+// risky reports whether an op lies (approximately) in one of the known-finding classes; the
+// generator keeps such ops rare so that most sequences check the whole property.
+func (g *c02Gen) risky(kind byte, k []byte, lim int) bool {
+	switch kind {
+	case 'G', 'D': // absent key that is a proper prefix of a stored key (superset of exhausted-key)
+		if g.keys[string(k)] {
+			return false
+		}
+		for s := range g.keys {
+			if len(s) > len(k) && bytes.HasPrefix([]byte(s), k) {
+				return true
+			}
+		}
+		return false
+	case 'K', 'C', 'L':
+		if len(k) > 0 && k[len(k)-1]&0x0f == 0 {
+			for s := range g.keys {
+				b := []byte(s)
+				if !bytes.HasPrefix(b, k) && len(b) >= len(k) && bytes.HasPrefix(b, k[:len(k)-1]) &&
+					b[len(k)-1]>>4 == k[len(k)-1]>>4 {
+					return true
+				}
+			}
+		}
+		if kind == 'L' {
+			m := g.matches(k)
+			if lim == 0 && m == 0 {
+				return g.r.Chance(4, 5) // mostly re-drawn twice: the dullest class
+			}
+			if lim > 0 && lim < m {
+				ks := make([]string, 0)
+				for s := range g.keys {
+					if bytes.HasPrefix([]byte(s), k) {
+						ks = append(ks, s)
+					}
+				}
+				sort.Strings(ks)
+				for _, a := range ks[:lim] {
+					if strings.HasPrefix(ks[lim], a) {
+						return true
+					}
+				}
+			}
+		}
+	}
+	return false
+}
+
 func c02GenSeq(r *vu.RNG, alph []byte, nops int) string {
 	g := &c02Gen{r: r, keys: map[string]bool{}, alph: alph}
 	var b strings.Builder
@@ -243,38 +291,56 @@ func c02GenSeq(r *vu.RNG, alph []byte, nops int) string {
 	// start with a few puts so that queries have something to look at
 	warm := r.Intn(6)
 	for i := 0; i < warm+nops; i++ {
-		c := r.Intn(20)
-		if i < warm {
-			c = 0
-		}
-		switch {
-		case c < 6:
-			k := g.key()
-			g.keys[string(k)] = true
-			fmt.Fprintf(&b, " P:%s:%s", vu.Hex(k), g.value())
-		case c < 9:
-			k := g.key()
-			delete(g.keys, string(k))
-			fmt.Fprintf(&b, " D:%s", vu.Hex(k))
-		case c < 11:
-			p := g.key()
-			g.clear(p, -1)
-			fmt.Fprintf(&b, " C:%s", vu.Hex(p))
-		case c < 14:
-			p := g.key()
-			m := g.matches(p)
-			lim := r.Intn(m + 2)
-			if r.Chance(1, 20) {
-				lim = 0xffffffff
+		for try := 0; ; try++ {
+			c := r.Intn(20)
+			if i < warm {
+				c = 0
 			}
-			g.clear(p, lim)
-			fmt.Fprintf(&b, " L:%s:%s", vu.Hex(p), vu.X(uint64(lim)))
-		case c < 16:
-			fmt.Fprintf(&b, " G:%s", vu.Hex(g.key()))
-		case c < 18:
-			fmt.Fprintf(&b, " N:%s", vu.Hex(g.key()))
-		case c < 20:
-			fmt.Fprintf(&b, " K:%s", vu.Hex(g.key()))
+			k := g.key()
+			keep := func(kind byte, lim int) bool {
+				return try >= 6 || !g.risky(kind, k, lim) || r.Chance(1, 8)
+			}
+			switch {
+			case c < 6:
+				g.keys[string(k)] = true
+				fmt.Fprintf(&b, " P:%s:%s", vu.Hex(k), g.value())
+			case c < 9:
+				if !keep('D', 0) {
+					continue
+				}
+				delete(g.keys, string(k))
+				fmt.Fprintf(&b, " D:%s", vu.Hex(k))
+			case c < 11:
+				if !keep('C', 0) {
+					continue
+				}
+				g.clear(k, -1)
+				fmt.Fprintf(&b, " C:%s", vu.Hex(k))
+			case c < 14:
+				m := g.matches(k)
+				lim := r.Intn(m + 2)
+				if r.Chance(1, 20) {
+					lim = 0xffffffff
+				}
+				if !keep('L', lim) {
+					continue
+				}
+				g.clear(k, lim)
+				fmt.Fprintf(&b, " L:%s:%s", vu.Hex(k), vu.X(uint64(lim)))
+			case c < 16:
+				if !keep('G', 0) {
+					continue
+				}
+				fmt.Fprintf(&b, " G:%s", vu.Hex(k))
+			case c < 18:
+				fmt.Fprintf(&b, " N:%s", vu.Hex(k))
+			case c < 20:
+				if !keep('K', 0) {
+					continue
+				}
+				fmt.Fprintf(&b, " K:%s", vu.Hex(k))
+			}
+			break
 		}
 	}
 	return b.String()
